@@ -493,10 +493,18 @@ pub fn run_program(src: &str, only: Option<(&str, &[Vec<V>])>, nvec: usize, rng:
     };
     let ir_eval = IrEval::new(&p.prog);
     let global_vals: Vec<(u32, V)> = p.globals.iter().map(|g| (g.id, g.init)).collect();
+    // text leg (c02/text.rs): the public route's text is the printed tree, and the printed tree reads back as the tree
+    let text_leg = match &emitted {
+        Ok(Ok(m)) => Some(super::text::check_module(&p.ir, m, hist)),
+        _ => None,
+    };
+    // the module as READ BACK from the emitted text, for the evaluator
+    let reread_sx: Option<Vec<Sx>> = text_leg.as_ref().filter(|t| t.differs).and_then(|t| t.reread.as_ref()).map(m_module);
 
     for (fi, (fid, src_name, emitted_name)) in p.funcs.iter().enumerate() {
         if let Some((want, _)) = only {
-            if want != src_name {
+            // "*": every function on the given argument vectors (enumerated streams)
+            if want != "*" && want != src_name {
                 continue;
             }
         }
@@ -702,6 +710,43 @@ pub fn run_program(src: &str, only: Option<(&str, &[Vec<V>])>, nvec: usize, rng:
                 }
             }
         }
+        // ---- text leg: the emitted TEXT of this function denotes the tree that was just judged
+        if fails.is_empty() && matches!(emitted, Ok(Ok(_))) {
+            if let Some(t) = &text_leg {
+                let tf = t.fails_for(emitted_name);
+                if let Some(first) = tf.first() {
+                    // what the re-read text computes (the stronger reading: values, not trees)
+                    let mut values = String::new();
+                    if let (Some(items2), true) = (&reread_sx, obs.starts_with("ast ")) {
+                        let me2 = MslEval::new(items2, false);
+                        let statics: Vec<(String, V)> = p.globals.iter().filter(|g| g.param_mode).map(|g| (g.name.clone(), g.init)).collect();
+                        for (v, want) in vectors.iter().zip(&ir_results) {
+                            let want = match want {
+                                Some(w) => w,
+                                None => continue,
+                            };
+                            let top: Vec<TopArg> = params.iter().zip(v).map(|((d, _), x)| if *d == 0 { TopArg::Val(*x) } else { TopArg::Var(*x) }).collect();
+                            msleval::take_stuck();
+                            let got = me2.run(emitted_name, &top, &statics);
+                            msleval::take_stuck();
+                            if let Some((ret, _, _)) = got {
+                                if ret != want.ret {
+                                    values = format!(
+                                        " ;; args [{}]: IR gives {} but the emitted Metal TEXT returns {}",
+                                        v.iter().map(|x| x.show()).collect::<Vec<_>>().join(","),
+                                        want.show(),
+                                        ret.show()
+                                    );
+                                    hist.add("gen:text:value-differs");
+                                    break;
+                                }
+                            }
+                        }
+                    }
+                    fails.push(format!("{}{}", first, values));
+                }
+            }
+        }
         let oracle = if !fails.is_empty() { format!("FAIL:{}", fails[0]) } else { "ok".to_string() };
         out.case(&req, &obs, &oracle);
     }
@@ -722,9 +767,125 @@ pub fn run_request(line: &str, out: &mut Out, hist: &mut Hist) {
     }
 }
 
+/// Operator chains (every tier, enumerated): for each scalar type and each binary operator the type checker accepts on it,
+/// one program whose functions nest the operator in itself to the right / to both sides / under its same-precedence partners,
+/// and below casts, calls, ?:, unary minus — the shapes whose PRINTED form depends on the formatter's parenthesis rule
+/// (seeded mutant C02-4: `a + (b + c)` printed `a + b + c`).  Argument grids: where float regrouping changes the IEEE result
+/// (1e30, -1e30, 1; 2^24, 1, 1; 1e-30, 1e30, 1e30) and integer edges.  Returns (source, function names, argument vectors).
+pub fn chain_programs() -> Vec<(String, Vec<String>, Vec<Vec<V>>)> {
+    let arith = ["+", "-", "*", "/"];
+    let rel = ["<", "<=", ">", ">=", "==", "!="];
+    let logic = ["&&", "||"];
+    let bits = ["%", "<<", ">>", "&", "|", "^"];
+    // operators of the same precedence level (printed without parentheses only in the left-nested form)
+    let partners = |op: &str| -> Vec<&'static str> {
+        match op {
+            "+" | "-" => vec!["+", "-"],
+            "*" | "/" | "%" => vec!["*", "/", "%"],
+            "<<" | ">>" => vec!["<<", ">>"],
+            "<" | "<=" | ">" | ">=" => vec!["<", ">="],
+            "==" | "!=" => vec!["==", "!="],
+            _ => vec![],
+        }
+    };
+    let f = |x: f32| V::F(x.to_bits());
+    let mut out = Vec::new();
+    for ty in ["float", "int", "uint", "bool"] {
+        let mut ops: Vec<&str> = Vec::new();
+        match ty {
+            "float" => {
+                ops.extend(arith);
+                ops.extend(rel);
+                ops.extend(logic);
+            }
+            "bool" => {
+                ops.extend(["+", "*", "&", "|", "^", "==", "!="]);
+                ops.extend(logic);
+            }
+            _ => {
+                ops.extend(arith);
+                ops.extend(bits);
+                ops.extend(rel);
+                ops.extend(logic);
+            }
+        }
+        let vectors: Vec<Vec<V>> = match ty {
+            "float" => vec![
+                vec![f(1e30), f(-1e30), f(1.0), f(1.0), V::B(true)],
+                vec![f(16777216.0), f(1.0), f(1.0), f(1.0), V::B(false)],
+                vec![f(1e-30), f(1e30), f(1e30), f(1e30), V::B(true)],
+                vec![f(1.5), f(-2.25), f(3.0), f(0.1), V::B(false)],
+                vec![f(f32::MAX), f(f32::MAX), f(-f32::MAX), f(2.0), V::B(true)],
+            ],
+            "int" => vec![
+                vec![V::I(0x7fff_ffff), V::I(1), V::I(0xffff_ffff), V::I(2), V::B(true)],
+                vec![V::I(5), V::I(3), V::I(2), V::I(1), V::B(false)],
+                vec![V::I(0x8000_0000), V::I(0xffff_fffd), V::I(7), V::I(3), V::B(true)],
+                vec![V::I(1 << 24), V::I(33), V::I(31), V::I(5), V::B(false)],
+            ],
+            "uint" => vec![
+                vec![V::U(0xffff_ffff), V::U(1), V::U(0xffff_fffe), V::U(2), V::B(true)],
+                vec![V::U(5), V::U(3), V::U(2), V::U(1), V::B(false)],
+                vec![V::U(0x8000_0000), V::U(31), V::U(7), V::U(3), V::B(true)],
+            ],
+            _ => vec![
+                vec![V::B(true), V::B(false), V::B(true), V::B(false), V::B(true)],
+                vec![V::B(false), V::B(true), V::B(true), V::B(false), V::B(false)],
+                vec![V::B(true), V::B(true), V::B(false), V::B(true), V::B(false)],
+            ],
+        };
+        for op in ops {
+            let mut bodies: Vec<String> = vec![
+                format!("a {0} (b {0} c)", op),
+                format!("a {0} (b {0} (c {0} d))", op),
+                format!("(a {0} b) {0} (c {0} d)", op),
+                format!("a {0} (b {0} c) {0} d", op),
+                format!("a {0} ({1})(b {0} c)", op, ty),
+                format!("({1})(a {0} (b {0} c))", op, ty),
+                format!("a {0} h(b {0} (c {0} d))", op),
+                format!("h(a {0} (b {0} c)) {0} (k ? b {0} c : d)", op),
+                format!("(k ? a : b) {0} ((k ? c : d) {0} a)", op),
+                format!("a {0} (-b {0} c)", op),
+                format!("a {0} (b {0} c, c {0} d)", op),
+            ];
+            for q in partners(op) {
+                if q != op {
+                    bodies.push(format!("a {0} (b {1} c)", op, q));
+                    bodies.push(format!("a {1} (b {0} (c {1} d))", op, q));
+                }
+            }
+            let mut src = format!("{0} h({0} x)\n{{\n    return x;\n}}\n\n", ty);
+            let mut names = Vec::new();
+            for (i, b) in bodies.iter().enumerate() {
+                let name = format!("f{}", i);
+                src.push_str(&format!("{0} {1}({0} a, {0} b, {0} c, {0} d, bool k)\n{{\n    return {2};\n}}\n\n", ty, name, b));
+                names.push(name);
+            }
+            // a statement form: compound assignment with a chain on the right, a chain as condition
+            src.push_str(&format!(
+                "{0} g0({0} a, {0} b, {0} c, {0} d, bool k)\n{{\n    {0} r = a {1} (b {1} c);\n    r = r {1} (c {1} (d {1} a));\n    if ((bool)(a {1} (b {1} d)))\n    {{\n        r = d {1} (r {1} b);\n    }}\n    return r;\n}}\n",
+                ty, op
+            ));
+            names.push("g0".to_string());
+            out.push((src, names, vectors.clone()));
+        }
+    }
+    out
+}
+
 pub fn run_stream(args: &Args, out: &mut Out, hist: &mut Hist) {
     let n = if args.thorough() { 3000 } else { 150 };
     let mut rng = Rng::new(args.seed ^ 0x5eed_c02);
+    // operator chains first (enumerated, every tier)
+    for (src, names, vectors) in chain_programs() {
+        hist.add("gen:chain-programs");
+        let _ = names;
+        let mut arng = Rng::new(1);
+        if let Err(pn) = guard(|| run_program(&src, Some(("*", &vectors[..])), vectors.len(), &mut arng, out, hist)) {
+            hist.add("gen:harness-panic");
+            out.case(&format!("C02.gen\t{}\t-\t\t-\t-", one_line(&src)), "harness-panic", &format!("SKIP:harness panic {}", pn));
+        }
+    }
     // aliasing calls first: statics passed as out/inout arguments to functions that touch them, one variable twice, ...
     let na = if args.thorough() { 2000 } else { 120 };
     for _ in 0..na {
